@@ -117,6 +117,7 @@ def explore(S, max_items=2, constructs=('call', 'array'), gaps=GAPS, ws_alts=WS_
     f_attr = S.find_fn(core, 'AttrStore::new')
     f_expr = S.find_fn(core, 'PrettyPrinter::convert_expr')
     found = []
+    tasks = []
     for construct in constructs:
         for n in range(0, max_items + 1):
             for seq in sequences(n, GAPS=gaps):
@@ -193,12 +194,11 @@ def explore(S, max_items=2, constructs=('call', 'array'), gaps=GAPS, ws_alts=WS_
                                       lambda mdl, t1=t1, t2=t2, mode=mode: dict(describe(mdl), layout=mode, first_pass=show_tokens(t1), second_pass=show_tokens(t2 or [])))
                         ctx.witness('second pass run (%s)' % mode)
                     S.absorb(m)
-                ob, ex = S.explore('twopass.%s[%s]' % (construct, ','.join(seq)), 'two passes of the real printer over %s with children %r, blanks / line breaks symbolic' % (
-                    'f(..)' if construct == 'call' else 'an array', seq), body, bounds=dict(items=n))
-                for lab, mdl, info in ex.violations:
-                    found.append((lab, info))
-                if ob.status.startswith('inconclusive'):
-                    return found
+                tasks.append(('twopass.%s[%s]' % (construct, ','.join(seq)), 'two passes of the real printer over %s with children %r, blanks / line breaks symbolic' % (
+                    'f(..)' if construct == 'call' else 'an array', seq), body, dict(items=n)))
+    for ob, viol in S.explore_batch(tasks):
+        for lab, mdl, info in viol:
+            found.append((lab, info))
     return found
 
 
